@@ -50,6 +50,22 @@ pub enum WireAns {
     Broken(String),
 }
 
+/// a DENIED answer with remaining 0 whose retry_after is 0 whole seconds although a token takes an hour or a day
+/// to refill: the signature of a request that reached the limiter carrying a timestamp EARLIER than that of a request
+/// processed before it (every transport stamps a request before it queues it).  The limiter then refuses it a token
+/// that "becomes available" at the other request's instant, nanoseconds later - N simultaneous requests on a fresh
+/// key can admit fewer than min(N, burst).  Known finding `C09-stamp-inversion` (KNOWN_FINDINGS.jsonl).
+pub fn stamp_inverted(a: &WireAns) -> bool {
+    matches!(a, WireAns::Ok(false, _, 0, _, 0))
+}
+
+/// tag for "admitted != want" among simultaneous requests: the known finding iff the shortfall is covered by
+/// stamp-inverted denials, a C09 violation otherwise (too many admitted is never the known finding)
+pub fn race_tag(admitted: i64, want: i64, inverted: i64) -> &'static str {
+    if admitted < want && want - admitted <= inverted { "KNOWN-C09-stamp-inversion" } else { "C09" }
+}
+
+
 impl WireAns {
     pub fn show(&self) -> String {
         match self {
@@ -1111,6 +1127,7 @@ pub fn run(seed: u64, n: usize, out: &mut Out) {
                 }));
             }
             let mut admitted = 0i64;
+            let mut inverted = 0i64;
             let mut answers = vec![];
             for h in hs {
                 let (proto, a) = h.await.unwrap();
@@ -1124,6 +1141,9 @@ pub fn run(seed: u64, n: usize, out: &mut Out) {
                     WireAns::Ok(false, ..) => seen.denied += 1,
                     _ => {}
                 }
+                if stamp_inverted(&a) {
+                    inverted += 1;
+                }
                 answers.push(format!("{proto:?}:{}", a.show()));
             }
             tokio::time::sleep(Duration::from_millis(5)).await;
@@ -1134,7 +1154,7 @@ pub fn run(seed: u64, n: usize, out: &mut Out) {
             let replay = vec![format!("# wire: {nreq} simultaneous unit requests on fresh key {key}, burst {b}, count 1 per 86400 s: {}", answers.join(" "))];
             let want = (nreq as i64).min(b);
             if admitted != want {
-                out.violation("C09", format!("{nreq} simultaneous unit requests over mixed protocols, burst {b}: {admitted} admitted, want {want}"), replay.clone());
+                out.violation(race_tag(admitted, want, inverted), format!("{nreq} simultaneous unit requests over mixed protocols, burst {b}: {admitted} admitted, want {want}"), replay.clone());
             }
             let padmit = procs.iter().filter(|p| p.1.starts_with("ok,1")).count() as i64;
             if procs.len() != nreq || padmit != admitted {
@@ -1302,6 +1322,7 @@ pub fn run(seed: u64, n: usize, out: &mut Out) {
             let log = take_log();
             let procs: Vec<(Vec<String>, String)> = log.iter().filter_map(|x| parse_proc(x)).collect();
             let mut admitted = 0i64;
+            let mut inverted = 0i64;
             for (proto, a, st) in &answers {
                 match proto {
                     Proto::Http if *st == 200 || *st == 500 => seen.http += 1,
@@ -1314,11 +1335,14 @@ pub fn run(seed: u64, n: usize, out: &mut Out) {
                     WireAns::Ok(false, ..) => seen.denied += 1,
                     _ => {}
                 }
+                if stamp_inverted(a) {
+                    inverted += 1;
+                }
             }
             out.bump("family_races");
             transcript.push(format!("# {nreq} simultaneous unit requests on key 4 ({} bytes, = key 1 but for its last byte): {}", key.len(), answers.iter().map(|x| format!("{:?}:{}", x.0, x.1.show())).collect::<Vec<_>>().join(" ")));
             if admitted != (nreq as i64).min(b) {
-                out.violation("C09", format!("{nreq} simultaneous unit requests over mixed protocols on an unused key of {} bytes, burst {b}, while a key that differs from it in the last byte only is exhausted: {admitted} admitted, want {}", key.len(), (nreq as i64).min(b)), transcript.clone());
+                out.violation(race_tag(admitted, (nreq as i64).min(b), inverted), format!("{nreq} simultaneous unit requests over mixed protocols on an unused key of {} bytes, burst {b}, while a key that differs from it in the last byte only is exhausted: {admitted} admitted, want {}", key.len(), (nreq as i64).min(b)), transcript.clone());
             }
             if procs.len() == nreq {
                 let mut ev = vec![];
